@@ -71,6 +71,12 @@ ADVERSARIAL = [
     "{ me { name @skip(if: $u) @skip(if: true) } }",
     "{ me { name @include } }",
     "{ me { name @include(if: \"yes\") } }",
+    # the same fragment spread several times in one selection set, some spreads excluded by directives (valid documents)
+    "query ($s: Boolean = true) { me { ...F @skip(if: $s) ...F } } fragment F on Person { name age }",
+    "query ($s: Boolean = true) { me { ...F @skip(if: $s) best { __typename } ...F @include(if: $s) } } fragment F on Person { name }",
+    "{ me { ...F @include(if: false) ... on Person { ...F } } } fragment F on Person { name strict }",
+    "{ me { ...A ...B } } fragment A on Person { ...F @skip(if: true) } fragment B on Person { ...F } fragment F on Person { age }",
+    "{ people { ...F @skip(if: true) } me { ...F } } fragment F on Person { name }",
 ]
 
 
